@@ -753,13 +753,14 @@ func (c *converter) trackSkippedBackend(source *annotations.Source, namespace st
 }
 
 func (c *converter) trackSkippedService(source *annotations.Source, fullSvcName, svcPort string) {
-	var port *api.ServicePort
-	if svc, err := c.cache.GetService(source.Namespace, fullSvcName); err == nil {
-		port = convutils.FindServicePort(svc, svcPort)
+	// follow the service as well: the backend this declaration resolves to depends on it
+	c.tracker.TrackNames(source.Type, source.FullName(), convtypes.ResourceService, fullSvcName)
+	svc, err := c.cache.GetService(source.Namespace, fullSvcName)
+	if err != nil {
+		return
 	}
+	port := convutils.FindServicePort(svc, svcPort)
 	if port == nil {
-		// cannot be resolved yet, follow the service instead
-		c.tracker.TrackNames(source.Type, source.FullName(), convtypes.ResourceService, fullSvcName)
 		return
 	}
 	ssvcName := strings.Split(fullSvcName, "/")
